@@ -105,6 +105,15 @@ package vm
 //@ spec fun rvZero(t reflect.Type) reflect.Value
 //@ spec fun typeElem(t reflect.Type) reflect.Type
 //@ spec fun typeKey(t reflect.Type) reflect.Type
+// rvAppendSlice(s, t): Go's append(s, t...) as reflect.AppendSlice performs it (sharing and growth rules included)
+//@ spec fun rvAppendSlice(s reflect.Value, t reflect.Value) reflect.Value
+// struct fields by name (reflect.Type.FieldByName: found / index path, promoted fields included) and by index path
+//@ spec fun typeHasField(t reflect.Type, name string) bool
+//@ spec fun typeFieldIndex(t reflect.Type, name string) []int
+//@ spec fun rvFieldPath(v reflect.Value, index []int) reflect.Value
+//@ spec fun rvMethodNamed(v reflect.Value, name string) reflect.Value
+// memberRecv(v): the struct a member expression looks into (what v denotes, through one pointer)
+//@ spec fun memberRecv(v reflect.Value) reflect.Value = ite(rvKind(unwrap(v)) == reflect.Ptr, rvElem(unwrap(v)), unwrap(v))
 //@ spec fun hashableKey(k reflect.Value) bool = (rvKind(k) == reflect.Interface && rvIsNil(k)) || rvComparable(k)
 //@ spec fun chanClosedOrNil(v reflect.Value) bool
 // calleeMayPanic(f): calling the function value f may panic — true of any host function, unknown to the verifier:
